@@ -218,16 +218,52 @@ def prov(unit, fn, e, depth=0, seen=None):
     return 'Unknown(%s)' % k
 
 
-def local_sources(fn, d):
-    """expressions a local variable gets its value from: initialiser + every assignment to it"""
+def outparam_flows(fn):
+    """decl id -> [source expressions] for locals passed to a call by non-const reference: the other
+    arguments and the receiver of that call may flow into them (std::swap(a,b), fill(src, dst), ...)"""
+    t = fn.__dict__.get('_outflows')
+    if t is not None:
+        return t
+    t = {}
+    for c in fn.calls():
+        pk = c.get('pk', '')
+        args = c.get('args', [])
+        if not (c.get('inrepo') or c.get('q') in ('std::swap', 'std::iter_swap')):
+            continue  # std functions other than swap do not move data between their arguments' owners
+        off = 1 if (c['k'] == 'CXXOperatorCallExpr' and c.get('memberop')) else 0
+        for i, a in enumerate(args):
+            j = i - off
+            if j < 0 or j >= len(pk) or pk[j] != 'r':
+                continue
+            sa = strip(a)
+            if sa is None or sa['k'] != 'DeclRefExpr' or sa.get('dk') != 'local':
+                continue
+            if c.get('q') in ('std::swap', 'std::iter_swap'):
+                srcs = [x for k2, x in enumerate(args) if k2 != i]
+            else:  # data flows from the by-value / const-reference arguments into the non-const ones
+                srcs = [x for k2, x in enumerate(args) if k2 != i and 0 <= k2 - off < len(pk) and pk[k2 - off] in 'cvq']
+            if c['k'] == 'CXXMemberCallExpr' and is_node(c.get('obj')):
+                srcs.append(c['obj'])
+            t.setdefault(sa['d'], []).extend(srcs)
+    fn._outflows = t
+    return t
+
+
+def local_sources(fn, d, outparams=False):
+    """expressions a local variable gets its value from: initialiser + every assignment to it
+    (+ with outparams=True, arguments of calls it is passed to by non-const reference)"""
     v = var_table(fn).get(d)
     out = []
     if v and is_node(v['decl'].get('init')):
         out.append(v['decl']['init'])
+    if v and v['kind'] == 'rangevar' and is_node(v['node'].get('range')):
+        out.append(v['node']['range'])
     for lhs, rhs, _ in assignments(fn):
         l = strip(lhs)
         if l is not None and l['k'] == 'DeclRefExpr' and l.get('d') == d:
             out.append(rhs)
+    if outparams:
+        out.extend(outparam_flows(fn).get(d, []))
     return out
 
 
